@@ -93,6 +93,27 @@ func genValidQuery(r *rand.Rand, s *ast.Schema, o qOpts) (string, map[string]int
 	return "", nil, nil
 }
 
+// genBoundedQuery draws a valid operation whose single-server answer visits at most [budget] objects over the
+// environment's current data (cyclic graphs with lists make deep queries explode).
+func (e *e2eEnv) genBoundedQuery(r *rand.Rand, o qOpts, budget int) (string, map[string]interface{}, *ast.QueryDocument) {
+	for i := 0; i < 50; i++ {
+		q, vars, doc := genValidQuery(r, e.gw.es.MergedSchema, o)
+		if doc == nil {
+			return "", nil, nil
+		}
+		b := budget
+		x := &execCtx{schema: e.gw.es.MergedSchema, data: e.world.data, vars: coerceVars(doc, vars), fed: e.fed, budget: &b}
+		x.execOperation(doc.Operations[0])
+		if b >= 0 {
+			return q, vars, doc
+		}
+		if o.maxDepth > 2 {
+			o.maxDepth--
+		}
+	}
+	return "", nil, nil
+}
+
 func init() { props["e2e-smoke"] = runSmoke }
 
 // runSmoke: development aid — gateway answer vs single-server reference on every fixture.
@@ -106,7 +127,7 @@ func runSmoke(cfg runCfg) error {
 		}
 		for i := 0; i < cfg.n; i++ {
 			env.world.data = genData(r, env.fed, dataOpts{nullProb: 0.15, safeStrings: true})
-			q, vars, doc := genValidQuery(r, env.gw.es.MergedSchema, qOpts{maxDepth: 2 + r.Intn(4), fragments: r.Intn(2) == 0, aliases: true, typename: true, args: true, variables: true, safeStrings: true})
+			q, vars, doc := env.genBoundedQuery(r, qOpts{maxDepth: 2 + r.Intn(4), fragments: r.Intn(2) == 0, aliases: true, typename: true, args: true, variables: true, safeStrings: true}, 400)
 			if doc == nil {
 				return fmt.Errorf("no valid query for %s", fx.Name)
 			}
